@@ -3,6 +3,11 @@ import hashlib
 import json
 
 
+def stable_hash(obj):
+    '''48-bit hash that does not depend on PYTHONHASHSEED.'''
+    return int.from_bytes(hashlib.blake2b(repr(obj).encode('utf-8', 'backslashreplace'), digest_size=6).digest(), 'big')
+
+
 def canon(obj):
     return json.dumps(obj, sort_keys=True, default=repr, separators=(',', ':'))
 
